@@ -533,10 +533,15 @@ Definition nominal (s : step) : Z :=
   | _ => 1
   end.
 
-(* Reference accounting for the stale test: every step the operator has passed (it was finished at that
-   moment) accounts for its nominal change; the current, unfinished step accounts for nothing. *)
+(* Reference accounting for the stale test.  A step the operator has passed was finished at that moment and
+   accounts for its nominal change — unless it was already finished in the region the operator was created
+   from, in which case it is unclear whether anything happened for it.  Two references bracket that:
+   accounted_hi counts every passed step, accounted_lo only those not finished at creation; the current,
+   unfinished step accounts for nothing in both. *)
 Definition accounted (ss : list step) (n : nat) : Z :=
   fold_left (fun acc s => acc + nominal s) (firstn n ss) 0.
+Definition accounted_lo (born : region) (ss : list step) (n : nat) : Z :=
+  fold_left (fun acc s => acc + (if is_finish born s then 0 else nominal s)) (firstn n ss) 0.
 
 (* a passed RemovePeer whose store was given a peer with the SAME id again by a later passed step:
    RemovePeer.ConfVerChanged then takes the removal for not done *)
@@ -554,6 +559,7 @@ Fixpoint readded_same_id (ss : list step) : bool :=
 
 Record mon := Mon {
   mc : ctl;
+  born : list (Z * region);     (* operator id -> the cached region it was created from (if the epochs agree) *)
   prev_running : list (Z * Z);
   prev_status : list (Z * status)
 }.
@@ -584,7 +590,16 @@ Definition first_some {A} (l : list (option A)) : option A :=
 Definition monitor_step (m : mon) (e : ev) (o : obs) : mon * option string :=
   let c := mc m in
   let c' := fst (ctl_step c e) in
-  let m' := Mon c' (b_running o) (b_status o) in
+  let born' :=
+    match e with
+    | ECreate id rid cv ver _ _ _ _ =>
+        match alist_get (cache c) rid with
+        | Some r => if (conf_ver r =? cv) && (rng r =? ver) then alist_set (born m) id r else born m
+        | None => born m
+        end
+    | _ => born m
+    end in
+  let m' := Mon c' born' (b_running o) (b_status o) in
   (* --- clauses --- *)
   let v_one :=
     if negb (nodupZ (map fst (b_running o))) then Some "C09:two-operators-on-one-region"
@@ -643,10 +658,17 @@ Definition monitor_step (m : mon) (e : ev) (o : obs) : mon * option string :=
                 match o_st o1, st with
                 | STARTED, Some s =>
                     let unsafe := is_some (check_safety r s) in
-                    let foreign := (conf_ver r - o_cv op) - accounted (o_steps op) (o_cur o1) in
-                    if (unsafe || (0 <? foreign)) && status_eqb after STARTED
+                    let delta := conf_ver r - o_cv op in
+                    (* certainly foreign: even if every passed step counts *)
+                    let foreign_lo := delta - accounted (o_steps op) (o_cur o1) in
+                    (* certainly own: even if steps that were finished at creation do not count *)
+                    let foreign_hi := match alist_get (born m) id with
+                                      | Some r0 => delta - accounted_lo r0 (o_steps op) (o_cur o1)
+                                      | None => 1
+                                      end in
+                    if (unsafe || (0 <? foreign_lo)) && status_eqb after STARTED
                     then Some (sapp "C09:foreign-change-not-cancelled:" (step_name s))
-                    else if negb unsafe && (foreign <=? 0) && status_eqb after CANCELED
+                    else if negb unsafe && (foreign_hi <=? 0) && status_eqb after CANCELED
                     then Some (sapp "C09:own-steps-judged-stale:"
                                     (if readded_same_id (firstn (o_cur o1) (o_steps op)) then "peer-removed-and-re-added-with-same-id"
                                      else step_name s))
@@ -671,7 +693,7 @@ Fixpoint monitor_run (m : mon) (es : list ev) (os : list obs) : option string :=
   end.
 
 Definition monitor (c : ccase) : option string :=
-  let '(maxw, es, os) := c in monitor_run (Mon (init maxw) [] []) es os.
+  let '(maxw, es, os) := c in monitor_run (Mon (init maxw) [] [] []) es os.
 
 Fixpoint monitor_fails_from (n : nat) (cs : list ccase) : list (nat * string) :=
   match cs with
